@@ -234,6 +234,41 @@ func TestLongLivedLane(t *testing.T) {
 	})
 }
 
+// TestVeryLongLivedLane: the same lane after 2^16 tasks, give or take a few - where a 16-bit ticket, sequence number or
+// per-worker tally would roll over (round twenty-three, after C11-agent22 and C05-agent23 showed what counter widths
+// hide). Thorough tier only (a case is 65 000 pushes, each followed by a settle: ten seconds and more on a busy machine).
+func TestVeryLongLivedLane(t *testing.T) {
+	if !rt.Thorough() {
+		t.Skip("thorough tier only")
+	}
+	rt.Check(t, 1, 16, func(t *rapid.T) {
+		lanes := rapid.IntRange(1, 3).Draw(t, "laneSize")
+		n := 1<<16 - 3 + rapid.IntRange(0, 5).Draw(t, "plus")
+		spread := rapid.IntRange(0, 1).Draw(t, "spreadOverTheLanes") // 0: everything through lane 0
+		p := ls.Program{LaneSize: lanes, QueueSize: rapid.IntRange(1, 3).Draw(t, "queueSize"), Timeout: time.Second, Long: true}
+		for i := 0; i < n; i++ {
+			p.Ops = append(p.Ops, ls.Op{Kind: ls.OpPush, Lane: i % lanes * spread, Task: ls.TaskSpec{Kind: ls.TInstant}}, ls.Op{Kind: ls.OpSettle})
+		}
+		for round := 0; round < 2; round++ {
+			for l := 0; l < lanes; l++ {
+				p.Ops = append(p.Ops, ls.Op{Kind: ls.OpPush, Lane: l, Task: ls.TaskSpec{Kind: ls.TGated, Gate: 1}}, ls.Op{Kind: ls.OpSettle})
+			}
+		}
+		p.Ops = append(p.Ops, ls.Op{Kind: ls.OpStatus}, ls.Op{Kind: ls.OpOpen, Gate: 1}, ls.Op{Kind: ls.OpSettle})
+		res, bubble := ls.RunInBubble(t, p)
+		if bubble != "" {
+			t.Fatalf("the bubble failed: %s\nprogram: %d instant tasks, then two gated tasks per lane (laneSize %d)", bubble, n, lanes)
+		}
+		if own := ls.Own(res, "C08"); len(own) > 0 {
+			t.Fatalf("%s\nprogram: %d instant tasks, then two gated tasks per lane (laneSize %d)", strings.Join(own, "\n"), n, lanes)
+		}
+		ev.Label("lane_that_has_served_2^16_tasks")
+		ev.Case(res.MaxRunning == lanes, ev.Hash("verylong", fmt.Sprint(lanes, n, p.QueueSize)), func() string {
+			return fmt.Sprintf("laneSize=%d queueSize=%d: %d instant tasks, then two gated tasks per lane => maxRunning=%d", lanes, p.QueueSize, n, res.MaxRunning)
+		})
+	})
+}
+
 // TestFirstPushesTogether: the first thing that happens to many lanes is that several goroutines push at once (a fan-out
 // right after start-up). Real goroutines on the real clock, many fresh lanes per case: two to eight producers leave a
 // spin barrier together and push gated tasks, more tasks than there are workers; whatever the lane sets up on first
